@@ -16,8 +16,10 @@ def run(ctx):
     ctx.rule("R03-3", "after every run_proc the shell's previous_status is assigned the result's status "
                       "before the next iteration")
     ctx.rule("R03-4", "$? formats previous_status, $$ formats getpid()")
-    ctx.rule("R03-6", "the status the list operators test is the pipeline's: wait_fg_job reports the LAST stage's status "
-                      "(written only under pid == *pids.last()), whatever order the stages finish in")
+    ctx.rule("R03-6", "the status the list operators test is the pipeline's, and the next pipeline starts after this one: "
+                      "wait_fg_job reports the LAST stage's status (written only under pid == *pids.last()), leaves its "
+                      "loop only at ECHILD / error / all members counted, counts a reaped child only when it is a member "
+                      "of the foreground pipeline, and waits for any child (the C02 R02-5 / R02-7 analyses)")
     ctx.rule("R03-5", "cicada -c exits with previous_status; a script run exits with run_script's value, "
                       "which is the status of the last command result")
     ctx.rule("R03-8", "the status && / || test is a real one: main resets an inherited SIGCHLD disposition before it runs "
@@ -311,15 +313,18 @@ def pipeline_status_rule(ctx, crate):
     sub = type(ctx)("C03", ctx.tier, ctx.crates, ctx.root)
     c02.wait_fg_rules(sub, crate, wj)
     c02.status_const_rule(sub, crate)
+    # all of them: the status written, the exits of the wait loop, its counter and its wait target decide both what
+    # `&&` / `||` / `$?` see and whether the next pipeline of the list starts only after this one has finished
     for o in sub.obligations:
-        if "status" in o["what"] or "get_status" in o["what"]:
-            o["rule"] = "R03-6"
-            ctx.obligations.append(o)
+        o["rule"] = "R03-6"
+        if o.get("key"):
+            o["key"] = "R03-6" + o["key"][5:]
+        ctx.obligations.append(o)
     for k, v in sub.violations.items():
-        if "status" in k or "constants" in k:
-            v["rule"] = "R03-6"
-            v["key"] = "R03-6" + k[5:]
-            ctx.violations[v["key"]] = v
+        v["rule"] = "R03-6"
+        v["key"] = "R03-6" + k[5:]
+        ctx.violations[v["key"]] = v
+    ctx.paths_enumerated += sub.paths_enumerated
 
 
 def splitter_state_rule(ctx, crate, rule):
